@@ -106,6 +106,19 @@ for _n in ("d", "points", "viewBox", "style", "title", "alt", "value", "placehol
         ATTRIBUTE_PROBES.append({"kids": [], "dicts": [], "kw": [[_n, S_(_v)]]})
 
 
+# values that LOOK like they want normalising (locale names, charsets, media types, letter case, separators): passed through as they are
+for _n, _vals in (("lang", ("en_US", "pt_BR.UTF-8", "zh_Hant_TW", "EN", "x_", "_")), ("hreflang", ("en_GB",)), ("charset", ("UTF_8", "utf8", "Latin-1")),
+                  ("dir", ("RTL", "Auto")), ("type", ("TEXT/CSS", "Module", "text/java_script")), ("rel", ("StyleSheet", "no_opener")), ("method", ("POST", "Get")),
+                  ("target", ("_blank", "_self", "blank")), ("id", ("a_b", "A-B", " a ")), ("for_", ("in_put",)), ("name", ("user_name", "x.y")),
+                  ("href", ("a_b.html", "HTTP://X.ORG/A_B", "#frag_1")), ("src", ("my_file.js", "./a/../b.js")), ("http_equiv", ("Content_Type",)),
+                  ("xml_lang", ("en_US",)), ("xmlns", ("HTTP://www.w3.org/2000/SVG",)), ("viewBox", ("0_0_10_10",)), ("preserveAspectRatio", ("xMidYMid_meet",)),
+                  ("crossorigin", ("Anonymous", "use_credentials")), ("loading", ("LAZY",)), ("autocomplete", ("ON", "new_password")), ("translate", ("NO",)),
+                  ("contenteditable", ("TRUE",)), ("draggable", ("False",)), ("spellcheck", ("FALSE",)), ("data_locale", ("en_US",)), ("accept_charset", ("UTF_8",))):
+    for _v in _vals:
+        ATTRIBUTE_PROBES.append({"kids": [_T("k")], "dicts": [], "kw": [[_n, S_(_v)]]})
+        ATTRIBUTE_PROBES.append({"kids": [], "dicts": [[[_n.rstrip("_").replace("_", "-"), S_(_v)]]], "kw": []})
+
+
 # a positional attribute dict stays an attribute dict whatever the other attributes say (type=..., role=..., is=...)
 for _ty in ("application/json", "module", "text/css", "application/ld+json", "checkbox", "hidden", "submit", "text/template", "importmap"):
     ATTRIBUTE_PROBES.append({"kids": [_T("x")], "dicts": [[["data-a", S_("1")], ["id", S_("i")]]], "kw": [["type", S_(_ty)]]})
